@@ -49,6 +49,7 @@ type VerifProgress struct {
 	RecentActive    bool
 	IsLearner       bool
 	Inflights       int
+	Ins             []uint64 // the in-flight window, oldest first
 }
 
 // VerifEntry is the (index, term, type, data) projection of a log entry.
@@ -56,6 +57,7 @@ type VerifEntry struct {
 	Index, Term uint64
 	Type        int32
 	Data        []byte
+	Size        int // pb.Entry.Size()
 }
 
 // VerifState is a read-only snapshot of the internal state of a node.
@@ -93,6 +95,21 @@ type VerifState struct {
 	QueuedProps               int
 	QueuedTicks               int
 	QueuedConf                int
+	// everything else raft.Step / node.StepNode read (for the handler-level correspondence)
+	MaxInflight          int
+	MaxMsgSize           uint64
+	MaxNextEntsSize      uint64
+	HeartbeatTimeout     int
+	ReadOnlyPending      int // read-index requests in flight (read-only handling is not modelled)
+	Msgs                 []pb.Message
+	PrevSoftLead         uint64
+	PrevSoftState        int
+	PrevHard             pb.HardState
+	PrevLead             uint64
+	HavePrevLastUnstable bool
+	PrevLastUnstableI    uint64
+	PrevLastUnstableT    uint64
+	PrevSnapI            uint64
 }
 
 type VerifVote struct {
@@ -107,6 +124,13 @@ func verifPrs(m map[uint64]*Progress) []VerifProgress {
 			PendingSnapshot: p.PendingSnapshot, RecentActive: p.RecentActive, IsLearner: p.IsLearner}
 		if p.ins != nil {
 			vp.Inflights = p.ins.count
+			idx := p.ins.start
+			for i := 0; i < p.ins.count; i++ {
+				vp.Ins = append(vp.Ins, p.ins.buffer[idx])
+				if idx++; idx >= p.ins.size {
+					idx -= p.ins.size
+				}
+			}
 		}
 		out = append(out, vp)
 	}
@@ -162,6 +186,20 @@ func VerifRaftState(n Node, withLog bool) (st VerifState, ok bool) {
 	nd.propQ.mu.Unlock()
 	st.QueuedTicks = len(nd.tickc)
 	st.QueuedConf = len(nd.confc)
+	st.MaxInflight, st.MaxMsgSize, st.MaxNextEntsSize = r.maxInflight, r.maxMsgSize, r.raftLog.maxNextEntsSize
+	st.HeartbeatTimeout = r.heartbeatTimeout
+	if r.readOnly != nil {
+		st.ReadOnlyPending = len(r.readOnly.readIndexQueue) + len(r.readOnly.pendingReadIndex)
+	}
+	st.Msgs = append([]pb.Message(nil), r.msgs...)
+	if nd.prevS != nil {
+		if nd.prevS.prevSoftSt != nil {
+			st.PrevSoftLead, st.PrevSoftState = nd.prevS.prevSoftSt.Lead, int(nd.prevS.prevSoftSt.RaftState)
+		}
+		st.PrevHard, st.PrevLead = nd.prevS.prevHardSt, nd.prevS.prevLead
+		st.HavePrevLastUnstable = nd.prevS.havePrevLastUnstablei
+		st.PrevLastUnstableI, st.PrevLastUnstableT, st.PrevSnapI = nd.prevS.prevLastUnstablei, nd.prevS.prevLastUnstablet, nd.prevS.prevSnapi
+	}
 	func() {
 		defer func() {
 			if e := recover(); e != nil {
@@ -179,7 +217,7 @@ func VerifRaftState(n Node, withLog bool) (st VerifState, ok bool) {
 					st.LogErr = err.Error()
 				}
 				for _, e := range ents {
-					st.Log = append(st.Log, VerifEntry{Index: e.Index, Term: e.Term, Type: int32(e.Type), Data: e.Data})
+					st.Log = append(st.Log, VerifEntry{Index: e.Index, Term: e.Term, Type: int32(e.Type), Data: e.Data, Size: e.Size()})
 				}
 			}
 		}
